@@ -37,7 +37,7 @@ class LifecycleRun:
         self.disabled = cfg["disabled"]
         policy = dict(cfg["policy"])
         self.names = list(policy["schemes"])
-        self.real = [s for s in self.names if s != self.disabled]
+        self.real = [s for s in self.names if s not in ("unix_disabled", "django_disabled")]
         self.counter = {"n": 0}
         # the default scheme is given as a counting subclass, so that digest computations can be observed
         r0 = _call(build_context, policy)
@@ -136,6 +136,8 @@ class LifecycleRun:
                        scheme=self.disabled, want=str(a))
         if a is None:
             return False
+        if a in ("unix_disabled", "django_disabled") and a != self.disabled:
+            return False  # claimed by the context's SECOND disabled-account handler (e.g. '*...' next to django_disabled): outside the model
         if self.parse(s)[0] == "disabled":
             return a == self.disabled
         return a != self.disabled
@@ -158,6 +160,8 @@ class LifecycleRun:
         if cur is not None and not self.attributable(cur):
             return
         arg = cur if with_hash else None
+        if arg is not None and op.get("as_bytes"):
+            arg = arg.encode("utf-8")
         r = _call(self.cc.disable, arg) if arg is not None or not with_hash else _call(self.cc.disable)
         self.shapes.add(st[0] + ("+embedded" if st[0] == "disabled" and st[1] else ""))
         if st[0] == "disabled":
@@ -206,7 +210,9 @@ class LifecycleRun:
         if cur is None or not self.attributable(cur):
             return
         st = self.parse(cur)
-        r = _call(self.cc.enable, cur)
+        r = _call(self.cc.enable, cur.encode("utf-8") if op.get("as_bytes") else cur)
+        if r[0] == "ok" and isinstance(r[1], bytes):
+            r = ("ok", r[1].decode("utf-8"))  # (text or bytes out is not fixed by the statement: a normal record given as bytes comes back as given)
         self.shapes.add("enable:" + st[0] + ("+embedded" if st[0] == "disabled" and st[1] else ""))
         if st[0] == "enabled":
             ctx.check(r == ("ok", cur), "C18", "enable-changes-normal-hash", f"enable({cur!r}) -> {r[:2]}")
